@@ -260,7 +260,7 @@ class Interpreter(Interp):
                 raise OutOfReach(f"for over an arbitrary-length sequence at line {node.lineno} needs a loop contract")
             return self.for_sequence(node, env, it, spec)
         broke = False
-        for item in self.iterate(it):
+        for item in (_live_list_iter(it) if type(it) is list else self.iterate(it)):
             self.assign(node.target, item, env)
             try:
                 self.exec_block(node.body, env)
@@ -1065,6 +1065,15 @@ class SymItems:
     def __init__(self, view, mode):
         self.view = view
         self.mode = mode
+
+
+def _live_list_iter(lst):
+    """CPython's list iterator: asks the LIVE list for element i until i >= len(list) - a body (or, across an await, another
+    task) that shortens, clears or extends the list changes what the loop visits."""
+    i = 0
+    while i < len(lst):
+        yield lst[i]
+        i += 1
 
 
 class PyModule:
